@@ -773,3 +773,61 @@ Example C03Heap_run_remove_tips_loop :
           [hx_deep; rr_at hx_deep 1; rr_at hx_deep 3; hx_chain; hx_two] = true.
 Proof. vm_compute. reflexivity. Qed.
 Print Assumptions C03Heap_run_remove_tips_loop.
+
+(** * after the repair of nni.Undo (e2.Right() == n2 || e1.Right() == n1) *)
+
+(** Undo keeps ANY good heap good, whatever the orientation of the three branches, i.e. wherever
+    the root is -- in particular after Apply followed by any re-rooting *)
+Theorem C03Heap_nni_undo_good_any : forall h q hx hy hxm hym ec e1 e2 edc ed1 ed2,
+  let x := q_n1 q in let y := q_n2 q in let ym := q_n12 q in
+  let xm := if q_cross q then q_n21 q else q_n22 q in
+  Good h ->
+  alookup x (hnodes h) = Some hx -> alookup y (hnodes h) = Some hy ->
+  alookup xm (hnodes h) = Some hxm -> alookup ym (hnodes h) = Some hym ->
+  In (y, ec) (slots_of hx) -> alookup ec (hedges h) = Some edc ->
+  In (xm, e1) (slots_of hx) -> xm <> y -> alookup e1 (hedges h) = Some ed1 ->
+  In (ym, e2) (slots_of hy) -> ym <> x -> alookup e2 (hedges h) = Some ed2 ->
+  exists h', nni_undo_heap q h = HOk h' /\ Good h'.
+Proof. exact nni_undo_good_any. Qed.
+Print Assumptions C03Heap_nni_undo_good_any.
+
+(** closed runs: every proposal of three trees, Apply, re-root at EVERY node, Undo: the result
+    represents the original tree re-rooted at the same node (the general statement about the
+    abstraction is not proved) *)
+Definition abs_same (h1 h2 : heap) : bool := match abs h1, abs h2 with Some a, Some b => utree_eqb a b | _, _ => false end.
+Definition chk_nni_rr (t : utree) (r : nni) : bool :=
+  let h := heap_of t in
+  match dump h with
+  | Some lt =>
+    match lnode_at lt (r_path r) with
+    | Some (LNode n1 _ _ _) =>
+      match alookup n1 (hnodes h) with
+      | Some hn1 =>
+        match nth_error (hneigh hn1) (r_k r) with
+        | Some n2 =>
+          match new_nni_heap h n1 n2 (r_cross r) with
+          | HOk q =>
+            match nni_apply_heap q h with
+            | HOk h1 =>
+              forallb (fun n => match reroot_heap n h1, reroot_heap n h with
+                                | HOk h2, HOk hr => match nni_undo_heap q h2 with HOk h3 => abs_same h3 hr | _ => false end
+                                | HErr _, HErr _ => true
+                                | _, _ => false end) (lids lt)
+            | _ => false
+            end
+          | _ => false
+          end
+        | None => false
+        end
+      | None => false
+      end
+    | None => false
+    end
+  | None => false
+  end.
+
+Example C03Heap_run_nni_reroot_undo :
+  forallb (chk_nni_rr hx_deep) (nni_list hx_deep) && forallb (chk_nni_rr hx_start) (nni_list hx_start) &&
+  forallb (chk_nni_rr (rr_at hx_deep 3)) (nni_list (rr_at hx_deep 3)) = true.
+Proof. vm_compute. reflexivity. Qed.
+Print Assumptions C03Heap_run_nni_reroot_undo.
